@@ -182,6 +182,38 @@ Definition rb_past_sd (r : rpc) (st : bool) : bool :=
   | _ => false
   end.
 
+(* what a step of the Run caller does to the history-related quantities *)
+Lemma rstep_spec : forall s c s' evs, Inv_pc s -> rstep s c = Some (s', evs) ->
+  e_hist s' = e_hist s /\
+  ((evs = [] /\ rb_past_sd (e_r s') (e_started s') = rb_past_sd (e_r s) (e_started s) /\ returned s' = returned s) \/
+   (evs = [(TR, KBoot)] /\ rb_past_sd (e_r s') (e_started s') = rb_past_sd (e_r s) (e_started s) /\ returned s' = returned s) \/
+   (evs = [(TR, KShutdown)] /\ rb_past_sd (e_r s) (e_started s) = false /\ rb_past_sd (e_r s') (e_started s') = true /\
+      returned s = false /\ returned s' = false) \/
+   (evs = [(TR, KRet)] /\ returned s = false /\ returned s' = true /\
+      rb_past_sd (e_r s') (e_started s') = rb_past_sd (e_r s) (e_started s))).
+Proof.
+  intros s c s' evs HI H. unfold rstep in H.
+  destruct (e_r s) eqn:Er; destruct c; try discriminate H; cbv beta iota in H; step_cases H.
+  all: try (pose proof (started_at _ HI) as Hst; rewrite Er in Hst; specialize (Hst eq_refl)).
+  all: try (pose proof (unstarted_at _ HI) as Hst; rewrite Er in Hst; specialize (Hst eq_refl)).
+  all: unfold returned; cbn [e_r e_started e_hist set_r set_alloc set_cancel set_insd set_started set_inall rb_past_sd].
+  all: rewrite ?Er, ?Hst.
+  - split; [reflexivity|]. right; left. auto.
+  - split; [reflexivity|]. right; right; right. auto.
+  - split; [frame_fin|]. left. splits; auto.
+  - split; [frame_fin|]. left. splits; frame_fin.
+  - split; [reflexivity|]. right; right; left. auto.
+  - split; [reflexivity|]. left. auto.
+  - split; [reflexivity|]. right; right; left. auto.
+  - split; [reflexivity|]. left. auto.
+  - split; [frame_fin|]. left. splits; frame_fin.
+  - split; [reflexivity|]. left. auto.
+  - split; [reflexivity|]. left. auto.
+  - split; [reflexivity|]. left. auto.
+  - split; [reflexivity|]. right; right; right. auto.
+Qed.
+
+
 Record Inv_h (s : estate) : Prop := mkInvH {
   ih_sd : onshutdowns (e_hist s) = if rb_past_sd (e_r s) (e_started s) then 1%Z else 0%Z;
   ih_ret : returns (e_hist s) = if returned s then 1%Z else 0%Z;
@@ -211,55 +243,56 @@ Lemma no_ret_of_nonr : forall evs : list evt, Forall (fun e => r_kind (snd e) = 
   Forall (fun e : evt => match snd e with KRet => False | _ => True end) evs.
 Proof. intros evs H. eapply Forall_impl; [|exact H]. intros [t k]; cbn. destruct k; auto; discriminate. Qed.
 
+Lemma Inv_h_nonR : forall s t c s' evs, Inv_pc s -> Inv_h s -> t <> TR ->
+  estep_opt s t c = Some (s', evs) -> Inv_h (push evs s').
+Proof.
+  intros s t c s' evs HI [Hsd Hret Hn] Ht H.
+  destruct (nonR_frame _ _ _ _ _ Ht H) as [Fr [Fs _]].
+  pose proof (nonR_events _ _ _ _ _ HI Ht H) as He.
+  assert (Hh : e_hist (push evs s') = rev evs ++ e_hist s).
+  { rewrite hist_push. f_equal.
+    destruct t; [congruence| | | | |]; cbn in H.
+    - unfold lstep in H. destruct (get_loop s i); [|discriminate]. step_cases H; frame_fin.
+    - unfold astep in H. step_cases H; frame_fin.
+    - unfold tstep in H. step_cases H; frame_fin.
+    - unfold ustep in H. destruct (get_user s g); [|discriminate].
+      destruct u as [|ex pk|op].
+      + destruct c; try discriminate H. unfold do_call in H. destruct c; step_cases H; frame_fin.
+      + destruct c; try discriminate H; step_cases H; frame_fin.
+      + step_cases H; frame_fin.
+    - unfold wstep in H. step_cases H; frame_fin. }
+  assert (Pr : forall e, e_r (push e s') = e_r s') by reflexivity.
+  assert (Ps : forall e, e_started (push e s') = e_started s') by reflexivity.
+  constructor; rewrite Hh; unfold returned in *; rewrite ?Pr, ?Ps, ?Fr, ?Fs.
+  - unfold onshutdowns in *. rewrite count_kind_app, count_kind_rev, count_kind_zero; [exact Hsd|].
+    eapply Forall_impl; [|exact He]. intros [? k]; cbn; destruct k; auto; discriminate.
+  - unfold returns in *. rewrite count_kind_app, count_kind_rev, count_kind_zero; [exact Hret|].
+    eapply Forall_impl; [|exact He]. intros [? k]; cbn; destruct k; auto; discriminate.
+  - apply ncar_push; [exact Hn|apply no_ret_of_nonr; exact He|].
+    destruct (returned s) eqn:Hr; [right; eapply returned_no_cb; eauto|left; unfold returned in Hr; rewrite Hret, Hr; reflexivity].
+Qed.
+
 Lemma Inv_h_step : forall s t c s' evs, Inv_pc s -> Inv_h s ->
   estep_opt s t c = Some (s', evs) -> Inv_h (push evs s').
 Proof.
-  intros s t c s' evs HI [Hsd Hret Hn] H.
-  destruct t.
-  - (* the Run caller *)
-    cbn in H. unfold rstep in H.
+  intros s t c s' evs HI HH H.
+  destruct t; [|eapply Inv_h_nonR; eauto; congruence ..].
+  destruct HH as [Hsd Hret Hn].
+  { (* the Run caller *)
+    cbn in H. destruct (rstep_spec _ _ _ _ HI H) as [Hh Hcases].
     assert (Hz : returned s = false -> returns (e_hist s) = 0%Z) by (intros Hq; rewrite Hret, Hq; reflexivity).
-    destruct (e_r s) eqn:Er; destruct c; try discriminate H; cbv beta iota in H; step_cases H.
-    all: try (pose proof (started_at _ HI) as Hst; rewrite Er in Hst; specialize (Hst eq_refl)).
-    all: try (pose proof (unstarted_at _ HI) as Hst; rewrite Er in Hst; specialize (Hst eq_refl)).
-    all: unfold returned in Hz; rewrite Er in Hz; try specialize (Hz eq_refl).
-    all: constructor; rewrite ?hist_push; cbn [rev app]; unfold onshutdowns, returns, returned in *;
-         rewrite ?count_kind_app; cbn [count_kind no_cb_after_ret is_cb]; frame_fin.
-    all: rewrite ?Er in *; rewrite ?Hst in *; cbn in *; rewrite ?Hsd, ?Hret; try reflexivity; try exact Hn.
-    all: unfold returns; rewrite ?Hz; cbn; try exact Hn.
-  - destruct (nonR_frame _ _ _ _ _ ltac:(discriminate) H) as [Fr [Fs _]].
-    pose proof (nonR_events _ _ _ _ _ HI ltac:(discriminate) H) as He.
-    constructor; unfold onshutdowns, returns, returned in *; rewrite ?hist_push, ?count_kind_app, ?count_kind_rev; cbn [e_r e_started push set_hist].
-    + rewrite count_kind_zero; [rewrite Fr, Fs; exact Hsd|]. eapply Forall_impl; [|exact He]. intros [? k]; cbn; destruct k; auto; discriminate.
-    + rewrite count_kind_zero; [rewrite Fr; exact Hret|]. eapply Forall_impl; [|exact He]. intros [? k]; cbn; destruct k; auto; discriminate.
-    + apply ncar_push; [exact Hn|apply no_ret_of_nonr; exact He|].
-      destruct (returned s) eqn:Hr; [right; eapply returned_no_cb; eauto|left; unfold returned in Hr; exact Hret].
-  - destruct (nonR_frame _ _ _ _ _ ltac:(discriminate) H) as [Fr [Fs _]].
-    pose proof (nonR_events _ _ _ _ _ HI ltac:(discriminate) H) as He.
-    constructor; unfold onshutdowns, returns, returned in *; rewrite ?hist_push, ?count_kind_app, ?count_kind_rev; cbn [e_r e_started push set_hist].
-    + rewrite count_kind_zero; [rewrite Fr, Fs; exact Hsd|]. eapply Forall_impl; [|exact He]. intros [? k]; cbn; destruct k; auto; discriminate.
-    + rewrite count_kind_zero; [rewrite Fr; exact Hret|]. eapply Forall_impl; [|exact He]. intros [? k]; cbn; destruct k; auto; discriminate.
-    + apply ncar_push; [exact Hn|apply no_ret_of_nonr; exact He|].
-      destruct (returned s) eqn:Hr; [right; eapply returned_no_cb; eauto|left; unfold returned in Hr; exact Hret].
-  - destruct (nonR_frame _ _ _ _ _ ltac:(discriminate) H) as [Fr [Fs _]].
-    pose proof (nonR_events _ _ _ _ _ HI ltac:(discriminate) H) as He.
-    constructor; unfold onshutdowns, returns, returned in *; rewrite ?hist_push, ?count_kind_app, ?count_kind_rev; cbn [e_r e_started push set_hist].
-    + rewrite count_kind_zero; [rewrite Fr, Fs; exact Hsd|]. eapply Forall_impl; [|exact He]. intros [? k]; cbn; destruct k; auto; discriminate.
-    + rewrite count_kind_zero; [rewrite Fr; exact Hret|]. eapply Forall_impl; [|exact He]. intros [? k]; cbn; destruct k; auto; discriminate.
-    + apply ncar_push; [exact Hn|apply no_ret_of_nonr; exact He|].
-      destruct (returned s) eqn:Hr; [right; eapply returned_no_cb; eauto|left; unfold returned in Hr; exact Hret].
-  - destruct (nonR_frame _ _ _ _ _ ltac:(discriminate) H) as [Fr [Fs _]].
-    pose proof (nonR_events _ _ _ _ _ HI ltac:(discriminate) H) as He.
-    constructor; unfold onshutdowns, returns, returned in *; rewrite ?hist_push, ?count_kind_app, ?count_kind_rev; cbn [e_r e_started push set_hist].
-    + rewrite count_kind_zero; [rewrite Fr, Fs; exact Hsd|]. eapply Forall_impl; [|exact He]. intros [? k]; cbn; destruct k; auto; discriminate.
-    + rewrite count_kind_zero; [rewrite Fr; exact Hret|]. eapply Forall_impl; [|exact He]. intros [? k]; cbn; destruct k; auto; discriminate.
-    + apply ncar_push; [exact Hn|apply no_ret_of_nonr; exact He|].
-      destruct (returned s) eqn:Hr; [right; eapply returned_no_cb; eauto|left; unfold returned in Hr; exact Hret].
-  - destruct (nonR_frame _ _ _ _ _ ltac:(discriminate) H) as [Fr [Fs _]].
-    pose proof (nonR_events _ _ _ _ _ HI ltac:(discriminate) H) as He.
-    constructor; unfold onshutdowns, returns, returned in *; rewrite ?hist_push, ?count_kind_app, ?count_kind_rev; cbn [e_r e_started push set_hist].
-    + rewrite count_kind_zero; [rewrite Fr, Fs; exact Hsd|]. eapply Forall_impl; [|exact He]. intros [? k]; cbn; destruct k; auto; discriminate.
-    + rewrite count_kind_zero; [rewrite Fr; exact Hret|]. eapply Forall_impl; [|exact He]. intros [? k]; cbn; destruct k; auto; discriminate.
-    + apply ncar_push; [exact Hn|apply no_ret_of_nonr; exact He|].
-      destruct (returned s) eqn:Hr; [right; eapply returned_no_cb; eauto|left; unfold returned in Hr; exact Hret].
+    assert (Pr : forall e, e_r (push e s') = e_r s') by reflexivity.
+    assert (Ps : forall e, e_started (push e s') = e_started s') by reflexivity.
+    constructor; rewrite hist_push, Hh; unfold returned in *; rewrite ?Pr, ?Ps.
+    + unfold onshutdowns in *. rewrite count_kind_app, count_kind_rev.
+      destruct Hcases as [[-> [E1 E2]]|[[-> [E1 E2]]|[[-> [E1 [E2 [E3 E4]]]]|[-> [E1 [E2 E3]]]]]]; cbn [count_kind];
+        rewrite Hsd; rewrite ?E1, ?E2, ?E3; reflexivity.
+    + unfold returns in *. rewrite count_kind_app, count_kind_rev.
+      destruct Hcases as [[-> [E1 E2]]|[[-> [E1 E2]]|[[-> [E1 [E2 [E3 E4]]]]|[-> [E1 [E2 E3]]]]]]; cbn [count_kind];
+        rewrite Hret; rewrite ?E1, ?E2, ?E3, ?E4; reflexivity.
+    + destruct Hcases as [[-> [E1 E2]]|[[-> [E1 E2]]|[[-> [E1 [E2 [E3 E4]]]]|[-> [E1 [E2 E3]]]]]]; cbn; auto.
+      * assert (Hq : match e_r s with RReturned => true | _ => false end = false).
+        { unfold rstep in H. destruct (e_r s); destruct c; try discriminate H; reflexivity. }
+        rewrite (Hz Hq), Hn. reflexivity.
+      * rewrite (Hz E3), Hn. reflexivity. }
 Qed.
